@@ -285,6 +285,8 @@ def explore_class(task):
     ex = C.rec["extra"]
     ex["max_depth"] = d
     ex["classes"] = 1
+    for k, v in getattr(oracle, "stats", {}).items():
+        ex[k] = ex.get(k, 0) + v
     if capped:
         ex["capped_classes"] = [rec["name"]]
         C.rec["exhaustive"] = False
